@@ -8,6 +8,8 @@
 #include <sys/mman.h>
 #include <netdb.h>
 #include <algorithm>
+#include <functional>
+#include <map>
 using namespace dnsw;
 using rcref::Addr;
 
@@ -156,8 +158,11 @@ extern "C" int LLVMFuzzerTestOneInput(const uint8_t *data, size_t size) {
 
   // ---- serve DNS
   std::vector<Pending *> pend; int queries[2] = {0, 0}; int64_t arrived[2] = {-1, -1}; int64_t first_query_at[2] = {-1, -1}; int other_queries = 0; std::string other_name;
-  auto serve = [&](Gai &gg, int max_steps) {
-    for (int step = 0; step < max_steps && !gg.calls; step++) {
+  // phase 3 (below) lets further lookups of the same name reach the nameserver; the n-th question of a type is then answered from rplan[n]
+  Plan rplan[2][2]; int n_re = 0; int re_seen[2] = {0, 0}; bool phase3 = false;
+  std::map<Addr, uint32_t> sent_ttl;        // per address (port 0): the largest TTL any reply built so far carried for it
+  auto serve = [&](const std::function<bool()> &done, int max_steps) {
+    for (int step = 0; step < max_steps && !done(); step++) {
       w.turn(); Datagram d; bool any = false;
       while (udp_recv(0, &d)) {
         any = true; Query q = decode_query_strict(d.data.data(), d.data.size());
@@ -166,7 +171,9 @@ extern "C" int LLVMFuzzerTestOneInput(const uint8_t *data, size_t size) {
         TR("    query \"%s\" type=%u t=+%lldus", esc(qn, 60).c_str(), q.type, (long long)(sim_now_us() - t0));
         if (t < 0 || !node || !eq_nocase(qn, node)) { other_queries++; other_name = qn; continue; }
         queries[t]++; if (first_query_at[t] < 0) first_query_at[t] = sim_now_us();
-        Plan &p = plan[t]; if (p.kind == 3) continue;
+        Plan &p = phase3 ? rplan[std::min(re_seen[t], n_re - 1)][t] : plan[t]; if (phase3) re_seen[t]++;
+        if (p.kind == 3) continue;
+        if (p.kind == 0) for (auto a : p.addrs) { a.port = 0; uint32_t &m = sent_ttl[a]; m = std::max(m, p.ttl); }
         Builder b;
         if (p.kind == 0) {
           int an = (int)p.addrs.size() + (p.cname ? 1 : 0);
@@ -178,12 +185,12 @@ extern "C" int LLVMFuzzerTestOneInput(const uint8_t *data, size_t size) {
         Pending *pp = new Pending; pp->pkt = b.b; pp->to = d.from; pp->arrived = &arrived[t];
         pp->ev = event_new(w.base, -1, 0, send_cb, pp); struct timeval tv; tv.tv_sec = p.delay_us / 1000000; tv.tv_usec = p.delay_us % 1000000; event_add(pp->ev, &tv); pend.push_back(pp);
       }
-      if (gg.calls) break;
-      if (!any) { w.turn(); if (gg.calls) break; if (!w.advance()) break; }
+      if (done()) break;
+      if (!any) { w.turn(); if (done()) break; if (!w.advance()) break; }
     }
     w.turn();
   };
-  if (rq) serve(g, 200);
+  if (rq) serve([&] { return g.calls > 0; }, 200);
   CHECK(g.calls == 1, "C38/callback-count", "callback ran %d times (A queries %d, AAAA queries %d)", g.calls, queries[0], queries[1]);
   CHECK(!g.bad_shape, "C38/addrinfo-shape", "malformed addrinfo entry: %s", g.shape.c_str());
   CHECK(g.err != 0 || !g.ents.empty(), "C38/success-without-addresses", "result 0 with an empty list");
